@@ -269,6 +269,13 @@ Definition id_token_ok (c : case) (r : response) (k : checks) (j : jws_desc) (ic
   && ((i_phone ic =s "") || string_in "phone" granted)
   && (negb (i_phone_verified ic) || string_in "phone" granted)
   && ((i_addr ic =s "") || string_in "address" granted)
+  (* ... and the claims of a granted scope are there: name for profile, email for email
+     (for a user the storage knows) *)
+  && match cs_user c with
+     | Some u => (negb (string_in "profile" granted) || (i_name ic =s u_name u))
+                 && (negb (string_in "email" granted) || (i_email ic =s u_email u))
+     | None => true
+     end
   (* any other claim is a custom claim of a granted custom:<name> scope *)
   && forallb (fun e => string_in ("custom:" ++ fst e)%string granted) (i_extra ic).
 
